@@ -5,7 +5,7 @@
 
 namespace {
 
-struct GStd { int kind; bool full; int variant; int p1, p2; long pref[9]; double ab_scale; };	// (kind 4, an n-port matrix standard, has n*n parameters)
+struct GStd { int kind; bool full; int variant; int p1, p2; long pref[9]; double ab_scale; double rot; };	// (kind 4, an n-port matrix standard, has n*n parameters)
 
 struct GSession {
     int sid = 0;
@@ -293,7 +293,7 @@ Plan cal_gen(const std::string &check, const std::string &tier, uint64_t seed, l
     };
     auto emit_add = [&](GSession &S, const GStd &st) {
 	Op o = g.mk("add", {S.sid, st.kind, st.full ? 1 : 0, st.variant, st.p1, st.p2, st.pref[0], st.pref[1], st.pref[2], st.pref[3], st.pref[4], st.pref[5], st.pref[6], st.pref[7], st.pref[8]}, S.sid);
-	o.d = {st.ab_scale};
+	o.d = {st.ab_scale, st.rot};
 	if (faults && rng.chance(0.05)) { Fault f; f.t = "alloc.vna"; f.n = rng.range(1, 30); o.f.push_back(f); }
 	plan.ops.push_back(o);
 	// every predefined reference materialises one table entry in the engine
@@ -301,6 +301,37 @@ Plan cal_gen(const std::string &check, const std::string &tier, uint64_t seed, l
 	for (int q = 0; q < np; ++q) if (st.pref[q] < 0) ++g.nparams;
     };
 
+    // one unknown parameter standing for two different physical reflects: first an extra standard of a one-port calibration
+    // (a reflect some 140 degrees away from the parameter's initial guess), then the reflect of a through-reflect-line
+    // calibration on the same vnacal_t, whose result must not depend on what the first one found
+    if ((c17 || c16) && !c12 && nsess <= 2 && rng.chance(0.06)) {
+	static const int t8[] = {VNACAL_T8, VNACAL_U8, VNACAL_TE10, VNACAL_UE10};
+	static const int t1[] = {VNACAL_T8, VNACAL_U8, VNACAL_TE10, VNACAL_UE10, VNACAL_UE14, VNACAL_E12};
+	double ph = 0.1 * (2 * rng.uni() - 1), mag = 0.85 + 0.1 * rng.uni();
+	Op mu = g.mk("mkunknown", {-3}, 3); mu.d = {-mag * cos(ph), mag * sin(ph)}; plan.ops.push_back(mu);
+	long U = g.nparams++;
+	GSession A; A.sid = 3; A.P = 1; A.type = t1[rng.below(6)]; A.F = (int)rng.range(1, 3); A.ab = rng.chance(0.4);
+	A.fmin = gfmin * (1 + 0.2 * rng.uni()); A.fmax = A.fmin + (gfmax - gfmin) * (0.3 + 0.6 * rng.uni());
+	emit_new(A);
+	for (long pre : {-3L, -2L, -1L}) emit_add(A, GStd{0, true, (int)rng.below(2), 1, 0, {pre, 0, 0, 0}, 1.0, 0.0});
+	emit_add(A, GStd{0, true, (int)rng.below(2), 1, 0, {U, 0, 0, 0}, 1.0, (rng.chance(0.5) ? 1 : -1) * (2.1 + 0.7 * rng.uni())});
+	plan.ops.push_back(g.mk("solve", {3}, 3));
+	GSession B; B.sid = 2; B.P = 2; B.type = t8[rng.below(4)]; B.F = (int)rng.range(1, 3); B.ab = rng.chance(0.4);
+	B.fmin = gfmin * (1 + 0.2 * rng.uni()); B.fmax = B.fmin + (gfmax - gfmin) * (0.3 + 0.6 * rng.uni());
+	double lmag = 0.85 + 0.12 * rng.uni(), lph = -(30 + 120 * rng.uni()) * M_PI / 180;
+	double gmag = lmag * (0.95 + 0.1 * rng.uni()), gph = lph + (25 * (2 * rng.uni() - 1)) * M_PI / 180;
+	long gl = mkscalar(gmag * cos(gph), gmag * sin(gph), 2);
+	Op ml = g.mk("mkunknown", {gl}, 2); ml.d = {lmag * cos(lph), lmag * sin(lph)}; plan.ops.push_back(ml);
+	long L = g.nparams++;
+	emit_new(B);
+	std::vector<GStd> trl = {GStd{2, true, (int)rng.below(3), 1, 2, {0, 0, 0, 0}, 1.0, 0.0}, GStd{1, true, (int)rng.below(2), 1, 2, {U, U, 0, 0}, 1.0, 0.0}, GStd{3, true, (int)rng.below(2), 1, 2, {-1, L, L, -1}, 1.0, 0.0}};
+	for (size_t k = trl.size(); k > 1; --k) std::swap(trl[k - 1], trl[(size_t)rng.below((long)k)]);
+	for (auto &st : trl) emit_add(B, st);
+	plan.ops.push_back(g.mk("solve", {2}, 2));
+	long nm = 8 + rng.below(12);
+	plan.ops.push_back(g.mk("addcal", {2, nm}, 2));
+	plan.ops.push_back(g.mk("apply", {nm, (long)rng.below(1000000), (long)rng.below(3), 0, (long)rng.below(1 << 12)}, 2));
+    }
     long steps = 0;
     int free_names = 0;
     (void)free_names;
